@@ -36,7 +36,7 @@ def obligations():
         KModelOb('O8.1-set-scripts-crash', 'ufs', 'set_scripts_crash', 'update_filter_scripts (real text) with a crash after any number of its write operations: '
                  'the surviving store satisfies R2 (no registered script below MIN_FILTERED without pending matched blocks)', C09.ex_ufs,
                  'crash point k in 0..5, pre-state satisfying J, <=2 stored scripts, <=1 pending record, any command with 1..2 scripts starting above 0',
-                 cuts=C09.CUTS, timeout=2400, mem_gb=16, min_covers=2, weight=8),
+                 cuts=C09.CUTS, timeout=2400, mem_gb=16, min_covers=2, weight=8, rustflags='--cfg ufs_small'),
         KModelOb('O8.2-block-arrival-crash', 'syncarm', 'send_block_crash', 'SendBlock arm (real text) with a crash after any number of its write operations: a pending '
                  'matched-block record is gone from the store only if all its blocks are indexed and the script numbers raised', common.send_block_arm,
                  'crash point k in 0..5, <=2 matched hashes, arbitrary incoming committed block', timeout=1500, mem_gb=12, min_covers=1, weight=5),
